@@ -56,8 +56,9 @@ _OPS_TRUSTED = [
 ]
 
 PROPS['C13'] = {
-    'units': ['ops'],
-    'functions': {'canon': [], 'ops': ['eval_ew', 'eval_aw', 'eval_au', 'eval_eu_saturated', 'eval_neg', 'eval_ax', 'eval_ex', 'eval_eg']},
+    # eval_node is part of the cone: it decides which operator function a weak-until node is evaluated by and with which arguments
+    'units': ['ops', 'eval', 'canon'],
+    'functions': {'canon': [], 'ops': ['eval_ew', 'eval_aw', 'eval_au', 'eval_eu_saturated', 'eval_neg', 'eval_ax', 'eval_ex', 'eval_eg'], 'eval': ['eval_node']},
     'level_text': ('Proof that eval_ew / eval_aw return exactly E[phi U psi] or EG phi, resp. not E[not psi U (not phi and not psi)] '
                    '(the equations of the statement, over least/greatest fixed points of an arbitrary coloured transition system), for every '
                    'graph, every argument set and every number of loop iterations; psi-states satisfy both (lemma).'),
@@ -95,8 +96,7 @@ PROPS['C01'] = {
 }
 PROPS['C02'] = {
     'units': ['ops', 'eval', 'api', 'front', 'lex', 'tree', 'mark', 'canon'],
-    'functions': {'canon': [], 'api': _EXT_API, 'front': ['parse_and_minimize_extended_formula', 'parse_extended_formula'], 'lex': [], 'tree': [], 'mark': [], 'ops': ['compute_valid_domain_for_var', 'eval_bind', 'eval_exists', 'eval_neg', 'eval_jump', 'create_equalizer', 'create_comparator_var_state',
-                          'project_out_hctl_var', 'project_out_bn_vars'],
+    'functions': {'canon': [], 'api': _EXT_API, 'front': ['parse_and_minimize_extended_formula', 'parse_extended_formula'], 'lex': [], 'tree': [], 'mark': [], 'ops': None,
                   'eval': ['eval_node', 'eval_hybrid_quantifier', 'restrict_stg_unit_bdd']},
     'level_text': ('Proof that wild-card propositions evaluate to the supplied set and that bind/exists/forall with a domain have the documented '
                    'meaning (bind additionally requires the current state in d; exists/forall range over d\'s states; empty domain: exists false, '
@@ -133,7 +133,8 @@ PROPS['C12'] = {
 }
 PROPS['C18'] = {
     'units': ['ops', 'eval', 'api', 'front', 'lex', 'tree', 'mark', 'canon'],
-    'functions': {'canon': [], 'mark': [], 'ops': ['eval_ex', 'eval_ax', 'eval_eg', 'eval_af', 'eval_au', 'eval_ew', 'eval_neg'], 'eval': ['eval_node', 'compute_steady_states', 'is_fixed_point_pattern', 'is_attractor_pattern'],
+    # every operator function is in the cone: the two variants agree only if the loop-insensitive operators (EF AG EU AW ..) are evaluated correctly in both
+    'functions': {'canon': [], 'mark': [], 'ops': None, 'eval': ['eval_node', 'compute_steady_states', 'is_fixed_point_pattern', 'is_attractor_pattern'],
                   'api': ['model_check_formula_unsafe_ex', 'parse_and_validate', '_model_check_formula_dirty', 'model_check_formula_dirty', '_model_check_multiple_formulae_dirty'],
                   'front': [], 'lex': [], 'tree': []},
     'level_text': ('Proof that model_check_formula_unsafe_ex satisfies the very specification proved for the safe entry point model_check_formula_dirty '
@@ -148,8 +149,9 @@ PROPS['C18'] = {
 UNIT_TIMEOUT['eval'] = 1200
 
 PROPS['C11'] = {
-    'units': ['ops'],
-    'functions': {'canon': [], 'ops': ['eval_neg', 'eval_ex', 'eval_ax', 'eval_eg', 'eval_af', 'eval_eu_saturated', 'eval_ef_saturated', 'eval_ag', 'eval_au', 'eval_ew', 'eval_aw']},
+    # eval_node is part of the cone: it decides which operator function a temporal node is evaluated by and with which arguments
+    'units': ['ops', 'eval', 'canon'],
+    'functions': {'canon': [], 'ops': ['eval_neg', 'eval_ex', 'eval_ax', 'eval_eg', 'eval_af', 'eval_eu_saturated', 'eval_ef_saturated', 'eval_ag', 'eval_au', 'eval_ew', 'eval_aw'], 'eval': ['eval_node']},
     'level_text': ('Proof, on every graph and for arbitrary argument sets, that each temporal operator function returns exactly its fixed-point '
                    'specification (EU/EF least, EG greatest, AU least fixed point; AX/AF/AG by duality; EX with explicit self-loops), plus proved '
                    'lemmas for the laws named in the statement: unfolding of EF / EG / EU / AU, monotonicity of EX / EU / EG / AU / AX in every '
@@ -264,7 +266,7 @@ PROPS['C08'] = {
 }
 PROPS['C10'] = {
     'units': ['api', 'eval', 'ops', 'front', 'lex', 'tree', 'mark', 'canon'],
-    'functions': {'canon': [], 'mark': None, 'front': [], 'lex': None, 'tree': [], 'api': _EXT_API, 'eval': ['eval_node', 'eval_hybrid_quantifier', 'restrict_stg_unit_bdd'], 'ops': None},
+    'functions': {'canon': [], 'mark': None, 'front': ['parse_and_minimize_extended_formula', 'parse_extended_formula', 'validate_and_rename_recursive', 'validate_props_and_rename_vars'], 'lex': None, 'tree': None, 'api': _EXT_API, 'eval': ['eval_node', 'eval_hybrid_quantifier', 'restrict_stg_unit_bdd'], 'ops': None},
     'level_text': ('Proof (lemma_replaced, induction over the tree with the twelve operator lemmas) that replacing any number of sub-formulae by wild-card propositions '
                    'whose context sets agree with the semantics of the replaced sub-formulae inside the unit set leaves the semantics of every surrounding formula '
                    'unchanged inside the unit set, for every graph; proof on the code that eval_node serves a wild-card terminal by the supplied set (cache invariant '
